@@ -129,6 +129,8 @@ def call_spec(draw, p, max_attempts: int):
                 max_size=max_attempts,
             )
         )
+    if c.get("handler") is not None and p.get("handler_time") and chance(draw, p["handler_time"], "hdur"):
+        c["handler_dur"] = draw(st.lists(st.sampled_from([0, 1, 4, 16, 64, 256]), max_size=max_attempts))
     return c
 
 
@@ -197,8 +199,8 @@ def placement(draw, p):
         "sleeper": draw(where),
         "before": draw(where),
         "handler": draw(st.sampled_from(["call", "policy", "both"])),
-        "sleeper_flavour": draw(st.sampled_from(["async", "sync", "awaitable"])),
-        "before_flavour": draw(st.sampled_from(["async", "sync", "awaitable"])),
+        "sleeper_flavour": draw(st.sampled_from(["async", "sync", "awaitable", "awaitable_obj"])),
+        "before_flavour": draw(st.sampled_from(["async", "sync", "awaitable", "awaitable_obj"])),
         "attempt_hooks": draw(st.sampled_from(["call", "policy", "none"])),
     }
     return d
